@@ -395,6 +395,12 @@ def rule_r7(ctx) -> List[R.Inst]:
                    f"write-back also modifies {extra}", construct=f"_update Mut = {sorted(s.mut)}")]
 
 
+def rule_dep(ctx):
+    """obligations inherited from shared code reached through the call graph (sa/props/deps.py)"""
+    from .deps import dep_insts
+    return dep_insts(ctx, "C12", ["reamber.base.Map.Map.stack", "reamber.base.MapSet.MapSet.stack", "reamber.base.Map.Map.Stacker._update"], skip_groups=("stack",))
+
+
 SPECS = [
     RuleSpec("C12.R1", rule_r1, 4, "A5", "boundaries, concatenation and write-back derive from one list in one order"),
     RuleSpec("C12.R2", rule_r2, 1, "A4", "the stacked frame has a fresh positional index"),
@@ -403,6 +409,7 @@ SPECS = [
     RuleSpec("C12.R5", rule_r5, 8, "M0", "stackable names resolve; stack() uses the most-derived Stacker and the type filter"),
     RuleSpec("C12.R6", rule_r6, 3, "A5", "mapset stack: chart order, row-wise broadcast"),
     RuleSpec("C12.R7", rule_r7, 1, "A3", "write-back writes the stacked lists' frames and nothing else"),
+    RuleSpec("C12.D", rule_dep, 1, "M0", "rules of the shared code (timing engine, list classes, stacker) that the operations of this property reach"),
 ]
 
 META = dict(
